@@ -362,8 +362,14 @@ func (c c01) runSession(w *core.WCtx, cfgs []dbCfg, cs c01Case, prog []dbOp, siz
 				d11 = true
 			}
 		}
+		if last || cs.CheckAll {
+			s.retain(i)
+		}
 		if !s.apply(i, op) {
 			return ""
+		}
+		if last || cs.CheckAll {
+			s.checkRetained(i, op)
 		}
 		if s.walRecordsAtClose {
 			d13 = true
